@@ -19,6 +19,7 @@ import (
 	"google.golang.org/grpc/status"
 	"pgregory.net/rapid"
 
+	"github.com/fullstorydev/grpchan"
 	pb "github.com/fullstorydev/grpchan/grpchantesting"
 	"github.com/fullstorydev/grpchan/httpgrpc"
 	"github.com/fullstorydev/grpchan/inprocgrpc"
@@ -45,6 +46,8 @@ type c12Case struct {
 	Late bool `json:",omitempty"`
 	// Creds: the judged call carries per-RPC credentials (which are told the method's URI)
 	Creds bool `json:",omitempty"`
+	// Decorated: every description goes through grpchan.InterceptServer (pass-through interceptors) before it is registered
+	Decorated bool `json:",omitempty"`
 }
 
 type c12Creds struct{}
@@ -105,7 +108,17 @@ func propC12(c c12Case) *Outcome {
 	registeredUnary, registeredStream := map[string]bool{}, map[string]bool{}
 	var descs []*grpc.ServiceDesc
 	for _, s := range c.Services {
-		descs = append(descs, c12Desc(s, ctr))
+		d := c12Desc(s, ctr)
+		if c.Decorated {
+			d = grpchan.InterceptServer(d,
+				func(ctx context.Context, req interface{}, _ *grpc.UnaryServerInfo, h grpc.UnaryHandler) (interface{}, error) {
+					return h(ctx, req)
+				},
+				func(srv interface{}, ss grpc.ServerStream, _ *grpc.StreamServerInfo, h grpc.StreamHandler) error {
+					return h(srv, ss)
+				})
+		}
+		descs = append(descs, d)
 		for _, m := range s.Unary {
 			registeredUnary["/"+s.Name+"/"+m] = true
 		}
@@ -146,6 +159,17 @@ func propC12(c c12Case) *Outcome {
 				}
 			}
 			h = s
+		} else if c.Carrier == cHTTPPer {
+			mux := http.NewServeMux()
+			for _, d := range early {
+				perMethodMux(mux, c.Base, d, &struct{}{}, nil, nil)
+			}
+			registerLate = func() {
+				for _, d := range late {
+					perMethodMux(mux, c.Base, d, &struct{}{}, nil, nil)
+				}
+			}
+			h = mux
 		} else {
 			mux := http.NewServeMux()
 			hm := newHandlerMap(descs[0], &struct{}{})
@@ -404,6 +428,7 @@ func genC12(t *rapid.T) c12Case {
 		c.ViaStream = !isUnary[c.Name]
 	}
 	c.Creds = rapid.IntRange(0, 4).Draw(t, "creds") == 0
+	c.Decorated = rapid.IntRange(0, 3).Draw(t, "decorated") == 0
 	c.Late = rapid.IntRange(0, 4).Draw(t, "late") == 0
 	if c.Late || rapid.IntRange(0, 2).Draw(t, "pre") == 0 {
 		np := rapid.IntRange(1, 3).Draw(t, "npre")
@@ -430,6 +455,7 @@ func init() { registerReplay("C12", propC12) }
 
 const c12Rule = "rapid-generated: 1..3 services (1..3 unary + 1..3 streaming methods, per-method counters) on inproc, httpgrpc.Server and HandleServices x absolute base path of 0..3 segments over [A-Za-z0-9._~+:@!-] and non-ASCII, with/without trailing slash (same on both sides) x called name = registered, or a mutation (no leading slash, no slash, empty, missing part, extra segment, prefix, suffix, other service, kind mismatch, case change, names path.Clean rewrites, characters needing escaping, random); " +
 	"oracle: registered name => exactly that counter +1 and success; any other name => no counter moves, non-OK status error (Unimplemented in-process / NotFound over HTTP for well-formed unknown names), never a panic; a registered name without its leading slash may run that handler (tolerated by both transports); " +
+	"also generated since the seeded rounds: up to 3 preceding calls on the same channel (any name, any kind), registration of the last service after those calls, per-RPC credentials on the judged call; " +
 	"non-trivial = unregistered/malformed name or base path other than /; distinct by case hash"
 
 // FuzzMethodName: coverage-guided search over method-name strings (any bytes) against a fixed set of
